@@ -17,6 +17,9 @@ Clauses of the property  ->  theorems
   '-' or include=0 marks exclusion .............. include_sign_vs_key, region_incl
   per-region properties override global ......... local_overrides_global, later_global_overrides_earlier,
                                                   global_affects_only_later
+  composites (global < composite < local; the last member, the line without `||`, still belongs;
+  nothing leaks past it) ........................ composite_scope, composite_overrides_global,
+                                                  composite_member_state, lookup_compProps
   multi-radius lines expand ..................... multi_annulus_expansion, multi_ellipse_expansion, multi_box_expansion
   newline / ';' / parentheses / commas .......... separators_interchangeable, punctuation_optional
   text kept verbatim ............................ text_verbatim
@@ -95,6 +98,14 @@ theorem emit_frame (st : State) (s : Stmt) (r : Region) (h : r ∈ emit st s) :
       simp only [hf, regionsOf, List.mem_map] at h
       obtain ⟨g, _, rfl⟩ := h
       rfl
+  | member sg sh args kvs =>
+    unfold emit at h
+    cases hf : st.frame with
+    | none => simp [hf] at h
+    | some f =>
+      simp only [hf, regionsOf, List.mem_map] at h
+      obtain ⟨g, _, rfl⟩ := h
+      rfl
   | _ => simp [emit] at h
 
 /-! ### the active frame applies until changed -/
@@ -122,9 +133,9 @@ output into what came before (unaffected) and its own scope. -/
 theorem frame_scope (st : State) (pre mid post : List Stmt) (k : FrameKw)
     (hmid : ∀ s ∈ mid, isFrameLine s = false) :
     run st (pre ++ .frame k :: mid ++ post) =
-      run st pre ++ run ⟨some k.frame, (final st pre).globals⟩ mid ++
+      run st pre ++ run { final st pre with frame := some k.frame } mid ++
         run (final st (pre ++ .frame k :: mid)) post ∧
-    ∀ r ∈ run ⟨some k.frame, (final st pre).globals⟩ mid, r.frame = k.frame := by
+    ∀ r ∈ run { final st pre with frame := some k.frame } mid, r.frame = k.frame := by
   constructor
   · rw [List.append_assoc, run_append, List.cons_append, run]
     rw [show pre ++ Stmt.frame k :: mid = pre ++ [Stmt.frame k] ++ mid by simp]
@@ -139,22 +150,18 @@ theorem frame_scope (st : State) (pre mid post : List Stmt) (k : FrameKw)
 
 /-- **no_frame_no_region_scope.** With no active frame and no supported frame line, nothing is
 emitted, however many region lines (or unsupported frame lines) there are. -/
-theorem no_frame_no_region_scope (g : List KV) (l : List Stmt)
-    (h : ∀ s ∈ l, ∀ k, s ≠ .frame k) : run ⟨none, g⟩ l = [] := by
-  induction l generalizing g with
+theorem no_frame_no_region_scope (st : State) (hst : st.frame = none) (l : List Stmt)
+    (h : ∀ s ∈ l, ∀ k, s ≠ .frame k) : run st l = [] := by
+  induction l generalizing st with
   | nil => rfl
   | cons s r ih =>
     have hs := h s List.mem_cons_self
     have hr : ∀ x ∈ r, ∀ k, x ≠ .frame k := fun x hx => h x (List.mem_cons_of_mem _ hx)
-    cases s with
-    | frame k => exact absurd rfl (hs k)
-    | badFrame => simp only [run, emit, next, List.nil_append]; exact ih _ hr
-    | global kvs => simp only [run, emit, next, List.nil_append]; exact ih _ hr
-    | region sg sh a kv => simp only [run, emit, next, List.nil_append]; exact ih _ hr
-    | blank => simp only [run, emit, next, List.nil_append]; exact ih _ hr
-    | comment => simp only [run, emit, next, List.nil_append]; exact ih _ hr
-    | badShape => simp only [run, emit, next, List.nil_append]; exact ih _ hr
-    | junk => simp only [run, emit, next, List.nil_append]; exact ih _ hr
+    have he : emit st s = [] := by cases s <;> simp [emit, hst]
+    have hn : (next st s).frame = none := by
+      cases s <;> simp_all [next]
+    rw [run, he, List.nil_append]
+    exact ih _ hn hr
 
 /-- where an active frame comes from: it was there at the start and no frame line intervened,
 or the LAST frame line is a supported one for that frame. -/
@@ -207,7 +214,7 @@ theorem interp_region_has_frame_line (toks : List Tok) (r : Region) (hr : r ∈ 
 /-- a file without any supported frame line yields no region at all. -/
 theorem interp_no_frame_line (toks : List Tok) (h : ∀ s ∈ stmtsOf toks, ∀ k, s ≠ .frame k) :
     interp toks = [] :=
-  no_frame_no_region_scope [] _ h
+  no_frame_no_region_scope init rfl _ h
 
 /-! ### pixel positions are shifted from 1-based to 0-based, sizes are not -/
 
@@ -573,10 +580,27 @@ theorem lookup_effective (k : String) (loc glob : List KV) :
   | some v => rfl
   | none => exact lookup_filter_not_local k loc glob h
 
+/-- the properties in force around a line: those of the composite being read (if any) over the
+global ones. -/
+def ambient (st : State) : List KV := effective st.comp st.globals
+
+theorem lookup_ambient (st : State) (k : String) :
+    lookup k (ambient st) = match lookup k st.comp with | some v => some v | none => lookup k st.globals :=
+  lookup_effective k st.comp st.globals
+
+/-- outside a composite the ambient properties are the global ones. -/
+theorem lookup_ambient_plain (st : State) (hc : st.comp = []) (k : String) :
+    lookup k (ambient st) = lookup k st.globals := by
+  rw [lookup_ambient, hc]; rfl
+
+/-- a member line (`… ||`) emits exactly what the same line without `||` emits. -/
+theorem member_emits_like_region (st : State) (sg : Sign) (sh : Shape) (args : List Num) (loc : List KV) :
+    emit st (.member sg sh args loc) = emit st (.region sg sh args loc) := rfl
+
 /-- every region of a line carries the line's effective properties, include flag and frame. -/
 theorem region_fields (st : State) (sg : Sign) (sh : Shape) (args : List Num) (loc : List KV)
     (r : Region) (hr : r ∈ emit st (.region sg sh args loc)) :
-    r.props = effective loc st.globals ∧ r.incl = includeOf sg loc st.globals ∧
+    r.props = effective loc (ambient st) ∧ r.incl = includeOf sg loc (ambient st) ∧
     st.frame = some r.frame ∧ r.geom ∈ geoms r.frame sh args := by
   unfold emit at hr
   cases hf : st.frame with
@@ -587,12 +611,22 @@ theorem region_fields (st : State) (sg : Sign) (sh : Shape) (args : List Num) (l
     exact ⟨rfl, rfl, rfl, hg⟩
 
 /-- **local_overrides_global.** For every region of every line and every key: the value is the
-one written on the line itself when there is one (whatever the `global` lines say), otherwise the
-one in force globally. -/
+one written on the line itself when there is one (whatever the composite header and the `global`
+lines say), otherwise the one of the composite the line belongs to, otherwise the one in force
+globally:  global < composite < local. -/
 theorem local_overrides_global (st : State) (sg : Sign) (sh : Shape) (args : List Num)
     (loc : List KV) (r : Region) (hr : r ∈ emit st (.region sg sh args loc)) (k : String) :
+    lookup k r.props =
+      match lookup k loc with
+      | some v => some v
+      | none => match lookup k st.comp with | some v => some v | none => lookup k st.globals := by
+  rw [(region_fields st sg sh args loc r hr).1, lookup_effective, lookup_ambient]
+
+/-- the same outside a composite: local, else global. -/
+theorem local_overrides_global_plain (st : State) (hc : st.comp = []) (sg : Sign) (sh : Shape)
+    (args : List Num) (loc : List KV) (r : Region) (hr : r ∈ emit st (.region sg sh args loc)) (k : String) :
     lookup k r.props = match lookup k loc with | some v => some v | none => lookup k st.globals := by
-  rw [(region_fields st sg sh args loc r hr).1, lookup_effective]
+  rw [local_overrides_global st sg sh args loc r hr, hc]; rfl
 
 /-- **text_verbatim.** The property token the line carries for key `k` — key, delimiter and the
 text between the delimiters, character for character — is what the region gets: no trimming, no
@@ -611,7 +645,7 @@ theorem later_global_overrides_earlier (st : State) (kvs : List KV) (k : String)
 /-- a `global` line only acts on the lines after it. -/
 theorem global_affects_only_later (st : State) (pre post : List Stmt) (kvs : List KV) :
     run st (pre ++ .global kvs :: post) =
-      run st pre ++ run ⟨(final st pre).frame, kvs ++ (final st pre).globals⟩ post := by
+      run st pre ++ run { final st pre with globals := kvs ++ (final st pre).globals } post := by
   rw [run_append]; simp [run, emit, next]
 
 /-- non-vacuity: `global color=green width=2`, then a line with `# color=red text={ a;b }`. -/
@@ -666,7 +700,7 @@ theorem plain_line_included (loc glob : List KV) (h : lookup "include" loc = non
 /-- the flag of an emitted region is that decision. -/
 theorem region_incl (st : State) (sg : Sign) (sh : Shape) (args : List Num) (loc : List KV)
     (r : Region) (hr : r ∈ emit st (.region sg sh args loc)) :
-    r.incl = includeOf sg loc st.globals :=
+    r.incl = includeOf sg loc (ambient st) :=
   (region_fields st sg sh args loc r hr).2.1
 
 /-- non-vacuity: the rows of the table on concrete property lists. -/
@@ -930,27 +964,39 @@ example :
 
 /-! ### unsupported shapes / frames are skipped without affecting the other regions -/
 
-/-- statements that are skipped: blank lines, comments, unsupported shapes, lines outside the
-grammar. -/
+/-- statements that are skipped whatever the state: blank lines, comments, unsupported shapes that
+are followed by `||`, lines outside the grammar. -/
 def inert : Stmt → Bool
-  | .blank | .comment | .badShape | .junk => true
+  | .blank | .comment | .badMember | .junk => true
   | _ => false
 
 theorem inert_noop (st : State) (s : Stmt) (h : inert s = true) : emit st s = [] ∧ next st s = st := by
   cases s <;> simp_all [inert, emit, next]
 
+theorem comp_reset_noop (st : State) (hc : st.comp = []) : { st with comp := [] } = st := by
+  cases st; simp_all
+
 /-- **unsupported_skipped_independent.** Deleting an unsupported-shape line (or a comment, a blank
 line) from anywhere in a file of any length changes nothing: the regions before it AND after it
-are exactly the same, in the same order. -/
+are exactly the same, in the same order.  (`s` inert: a comment, a blank line, an unsupported
+shape followed by `||`; for an unsupported shape NOT followed by `||` see the next theorem.) -/
 theorem unsupported_skipped_independent (st : State) (pre post : List Stmt) (s : Stmt)
     (h : inert s = true) : run st (pre ++ s :: post) = run st (pre ++ post) := by
   obtain ⟨h1, h2⟩ := inert_noop (final st pre) s h
   rw [run_append, run_append, run, h1, h2, List.nil_append]
 
+/-- an unsupported shape line that is not followed by `||` is skipped in the same way wherever no
+composite is open; inside a composite it is the composite's last member (it still yields no
+region, and the composite ends after it as after any other last member). -/
+theorem unsupported_shape_skipped (st : State) (pre post : List Stmt)
+    (hc : (final st pre).comp = []) : run st (pre ++ .badShape :: post) = run st (pre ++ post) := by
+  rw [run_append, run_append, run]
+  simp only [emit, next, List.nil_append, comp_reset_noop _ hc]
+
 /-- a region line whose numbers cannot be represented in the active frame (`3"` in `image`,
 `10i` in `fk5`, physical `p`, …) is skipped in the same way. -/
 theorem unrepresentable_skipped (st : State) (pre post : List Stmt) (sg : Sign) (sh : Shape)
-    (args : List Num) (kvs : List KV)
+    (args : List Num) (kvs : List KV) (hc : (final st pre).comp = [])
     (hgeo : ∀ f, (final st pre).frame = some f → geoms f sh args = []) :
     run st (pre ++ .region sg sh args kvs :: post) = run st (pre ++ post) := by
   rw [run_append, run_append, run]
@@ -959,70 +1005,152 @@ theorem unrepresentable_skipped (st : State) (pre post : List Stmt) (sg : Sign) 
     cases hf : (final st pre).frame with
     | none => rfl
     | some f => simp [regionsOf, hgeo f hf]
-  rw [this]; rfl
+  rw [this]
+  simp only [next, List.nil_append, comp_reset_noop _ hc]
 
-/-- only `global` lines change the global properties, whatever the frame state. -/
-def isGlobalLine : Stmt → Bool
-  | .global _ => true
-  | _ => false
-
-theorem final_globals_filter (st st' : State) (l : List Stmt) (h : st.globals = st'.globals) :
-    (final st l).globals = (final st' (l.filter isGlobalLine)).globals := by
+/-- global and composite properties evolve independently of the frame. -/
+theorem final_props_congr (st st' : State) (l : List Stmt) (hg : st.globals = st'.globals)
+    (hc : st.comp = st'.comp) :
+    (final st l).globals = (final st' l).globals ∧ (final st l).comp = (final st' l).comp := by
   induction l generalizing st st' with
-  | nil => exact h
+  | nil => exact ⟨hg, hc⟩
   | cons s r ih =>
-    cases s with
-    | global kvs =>
-      simp only [List.filter_cons, isGlobalLine, if_true, final_cons]
-      exact ih _ _ (by simp [next, h])
-    | _ =>
-      simp only [List.filter_cons, isGlobalLine, final_cons]
-      exact ih _ _ (by simp [next, h])
-
-theorem run_globals_only (st : State) (l : List Stmt) (h : ∀ s ∈ l, isGlobalLine s = true) :
-    run st l = [] := by
-  induction l generalizing st with
-  | nil => rfl
-  | cons s r ih =>
-    have hs := h s List.mem_cons_self
-    cases s with
-    | global kvs =>
-      simp only [run, emit, List.nil_append]
-      exact ih _ (fun x hx => h x (List.mem_cons_of_mem _ hx))
-    | _ => simp [isGlobalLine] at hs
+    rw [final_cons, final_cons]
+    apply ih
+    · cases s <;> simp [next, hg]
+    · cases s <;> simp [next, hc]
 
 /-- **unsupported_frame_scope.** An unsupported frame line cancels the active frame up to the next
-frame line: the file reads exactly as if that line AND the region lines in its scope were not
-there (the `global` lines of the scope still count).  The regions before it and from the next
-frame line on are untouched. -/
+frame line and does nothing else: the output is that of the same file WITHOUT the unsupported
+frame line, minus the regions of the lines `mid` in its scope — the regions before it are
+untouched, and from the next frame line on everything (frame, global and composite properties)
+is exactly as if the line had not been there. -/
 theorem unsupported_frame_scope (st : State) (pre mid post : List Stmt) (k : FrameKw)
     (hmid : ∀ s ∈ mid, isFrameLine s = false) :
     run st (pre ++ .badFrame :: mid ++ .frame k :: post) =
-      run st (pre ++ mid.filter isGlobalLine ++ .frame k :: post) := by
+      run st pre ++ run (final st (pre ++ mid ++ [.frame k])) post ∧
+    run st (pre ++ mid ++ .frame k :: post) =
+      run st pre ++ run (final st pre) mid ++ run (final st (pre ++ mid ++ [.frame k])) post := by
   have hnone : run (next (final st pre) .badFrame) mid = [] := by
-    apply no_frame_no_region_scope
+    apply no_frame_no_region_scope _ rfl
     intro s hs k' hk'
     have := hmid s hs
     rw [hk'] at this
     simp [isFrameLine] at this
-  have hglob : run (final st pre) (mid.filter isGlobalLine) = [] :=
-    run_globals_only _ _ (fun s hs => (List.mem_filter.1 hs).2)
-  have hg : (final (next (final st pre) .badFrame) mid).globals =
-      (final (final st pre) (mid.filter isGlobalLine)).globals :=
-    final_globals_filter _ _ mid rfl
-  -- left: nothing is emitted inside the scope
-  have hL : run st (pre ++ Stmt.badFrame :: mid ++ Stmt.frame k :: post) =
-      run st pre ++ run ⟨some k.frame, (final (next (final st pre) .badFrame) mid).globals⟩ post := by
-    rw [run_append, run_append, final_append, final_cons]
-    simp only [next] at hnone
-    simp only [run, emit, List.nil_append, next]
-    rw [hnone, List.append_nil]
-  -- right: `global` lines emit nothing either
-  have hR : run st (pre ++ mid.filter isGlobalLine ++ Stmt.frame k :: post) =
-      run st pre ++ run ⟨some k.frame, (final (final st pre) (mid.filter isGlobalLine)).globals⟩ post := by
-    rw [run_append, run_append, final_append]
-    simp only [run, emit, List.nil_append, hglob, List.append_nil, next]
-  rw [hL, hR, hg]
+  have hst : final st (pre ++ Stmt.badFrame :: mid ++ [Stmt.frame k]) = final st (pre ++ mid ++ [Stmt.frame k]) := by
+    have e : pre ++ Stmt.badFrame :: mid ++ [Stmt.frame k] = pre ++ ([Stmt.badFrame] ++ (mid ++ [Stmt.frame k])) := by simp
+    rw [e, final_append, final_append, final_append, final_append, final_append]
+    obtain ⟨h1, h2⟩ := final_props_congr (final (final st pre) [Stmt.badFrame]) (final st pre) mid rfl rfl
+    simp only [final, List.foldl_cons, List.foldl_nil, next] at h1 h2 ⊢
+    rw [h1, h2]
+  constructor
+  · have e : pre ++ Stmt.badFrame :: mid ++ Stmt.frame k :: post =
+        (pre ++ Stmt.badFrame :: mid ++ [Stmt.frame k]) ++ post := by simp
+    rw [e, run_append, hst]
+    congr 1
+    have e2 : pre ++ Stmt.badFrame :: mid ++ [Stmt.frame k] = pre ++ (Stmt.badFrame :: (mid ++ [Stmt.frame k])) := by simp
+    rw [e2, run_append, run, run_append]
+    simp only [emit, List.nil_append, hnone, run, List.append_nil]
+  · have e : pre ++ mid ++ Stmt.frame k :: post = (pre ++ mid ++ [Stmt.frame k]) ++ post := by simp
+    rw [e, run_append]
+    congr 1
+    rw [run_append, run_append]
+    simp [run, emit]
+
+/-! ### composites: `# composite(...) || composite=1 props`, members `… ||`, last member without `||` -/
+
+/-- lines that continue a composite. -/
+def isMemberLine : Stmt → Bool
+  | .member _ _ _ _ | .badMember => true
+  | _ => false
+
+theorem final_members (st : State) (ms : List Stmt) (h : ∀ m ∈ ms, isMemberLine m = true) :
+    final st ms = st := by
+  induction ms generalizing st with
+  | nil => rfl
+  | cons m r ih =>
+    have hm := h m List.mem_cons_self
+    rw [final_cons]
+    have : next st m = st := by cases m <;> simp_all [isMemberLine, next]
+    rw [this]
+    exact ih _ (fun x hx => h x (List.mem_cons_of_mem _ hx))
+
+/-- **composite_scope.** A composite of any number of members: every member line AND the last line
+(the one without `||`) is read with the header's properties in force; after the last line they
+are gone — the rest of the file is read exactly as if the composite had never set them. -/
+theorem composite_scope (st : State) (kvs : List KV) (ms : List Stmt)
+    (hms : ∀ m ∈ ms, isMemberLine m = true) (sg : Sign) (sh : Shape) (args : List Num) (loc : List KV)
+    (post : List Stmt) :
+    run st (.composite kvs :: ms ++ .region sg sh args loc :: post) =
+      run { st with comp := compProps kvs } ms ++
+      emit { st with comp := compProps kvs } (.region sg sh args loc) ++
+      run { st with comp := [] } post := by
+  rw [List.cons_append, run]
+  simp only [emit, List.nil_append, next]
+  rw [run_append, final_members _ ms hms, run]
+  simp only [emit, next, List.append_assoc]
+
+/-- every member is read in the state the header leaves. -/
+theorem composite_member_state (st : State) (kvs : List KV) (ms : List Stmt)
+    (hms : ∀ m ∈ ms, isMemberLine m = true) :
+    final st (.composite kvs :: ms) = { st with comp := compProps kvs } := by
+  rw [final_cons, final_members _ ms hms]; rfl
+
+/-- **composite_overrides_global.** For the regions of the LAST member (and, by
+`member_emits_like_region`, of every member): own property, else the composite's, else the global. -/
+theorem composite_overrides_global (st : State) (kvs : List KV) (sg : Sign) (sh : Shape)
+    (args : List Num) (loc : List KV) (r : Region)
+    (hr : r ∈ emit { st with comp := compProps kvs } (.region sg sh args loc)) (k : String) :
+    lookup k r.props =
+      match lookup k loc with
+      | some v => some v
+      | none => match lookup k (compProps kvs) with | some v => some v | none => lookup k st.globals :=
+  local_overrides_global _ sg sh args loc r hr k
+
+theorem lookup_filter_of_key (k : String) (q : KV → Bool) (l : List KV)
+    (h : ∀ p : KV, p.key = k → q p = true) : lookup k (l.filter q) = lookup k l := by
+  induction l with
+  | nil => rfl
+  | cons p r ih =>
+    unfold lookup at ih ⊢
+    by_cases hq : q p = true
+    · by_cases hp : p.key = k
+      · simp [List.filter_cons, hq, hp]
+      · simp [List.filter_cons, hq, hp, ih]
+    · have hp : ¬ p.key = k := fun e => hq (h p e)
+      simp [List.filter_cons, hq, hp, ih]
+
+/-- `composite=1` itself is not handed down; every other header property is, verbatim. -/
+theorem lookup_compProps (kvs : List KV) (k : String) (hk : k ≠ "composite") :
+    lookup k (compProps kvs) = lookup k kvs := by
+  unfold compProps
+  apply lookup_filter_of_key
+  intro p hp
+  simp only [ne_eq, decide_eq_true_eq]
+  rw [hp]; exact hk
+
+/-- non-vacuity, the composite conventions on a file: global color=green; a composite with
+color=red include=0 and three members, the second with its own color, the last without `||`; then a
+plain circle (global colour again, included); then a second composite. -/
+example :
+    (interp [.word .global, .kv ⟨"color", .bare, "green"⟩, .nl, .word (.frame .image), .nl,
+            .hash, .word .composite, .num (.dec 1 .none), .num (.dec 2 .none), .num (.dec 0 .none), .bars,
+              .kv ⟨"composite", .bare, "1"⟩, .kv ⟨"color", .bare, "red"⟩, .kv ⟨"include", .bare, "0"⟩, .nl,
+            .word (.shape .point), .num (.dec 1 .none), .num (.dec 2 .none), .bars, .nl,
+            .plus, .word (.shape .point), .num (.dec 3 .none), .num (.dec 4 .none), .bars, .hash,
+              .kv ⟨"color", .bare, "blue"⟩, .nl,
+            .word (.shape .point), .num (.dec 5 .none), .num (.dec 6 .none), .nl,
+            .word (.shape .point), .num (.dec 7 .none), .num (.dec 8 .none), .nl,
+            .hash, .word .composite, .num (.dec 1 .none), .num (.dec 2 .none), .num (.dec 0 .none), .bars,
+              .kv ⟨"composite", .bare, "1"⟩, .kv ⟨"width", .bare, "3"⟩, .nl,
+            .word (.shape .point), .num (.dec 9 .none), .num (.dec 9 .none)]).map
+        (fun r => (r.incl, lookup "color" r.props, lookup "width" r.props, lookup "composite" r.props)) =
+      [(false, some ⟨"color", .bare, "red"⟩, none, none),
+       (true, some ⟨"color", .bare, "blue"⟩, none, none),
+       (false, some ⟨"color", .bare, "red"⟩, none, none),      -- the LAST member still belongs to the composite
+       (true, some ⟨"color", .bare, "green"⟩, none, none),     -- the next region does not
+       (true, some ⟨"color", .bare, "green"⟩, some ⟨"width", .bare, "3"⟩, none)] := by
+  decide +kernel
 
 /-- non-vacuity: `image; circle(1,2,3); panda(...); physical; circle(4,5,6); fk5; point(7,8)`. -/
 example :
@@ -1064,7 +1192,7 @@ example :
     (run init (.frame .fk5 :: mid)).length = 2 ∧
     (∀ r ∈ run init (.frame .fk5 :: mid), r.frame = .fk5) ∧
     run init (.frame .fk5 :: .badFrame :: mid) = [] ∧
-    inert .badShape = true ∧ inert .comment = true ∧
+    inert .badMember = true ∧ inert .comment = true ∧
     (∀ f, (final init [.frame .image]).frame = some f →
       geoms f .circle [.dec 1 .none, .dec 2 .none, .dec 3 .arcsec] = []) := by
   decide +kernel
